@@ -581,10 +581,11 @@ class ComponentLevel3( ComponentLevel2 ):
                   v_connected_in_parent = u in parent._dsl.adjacency and v in parent._dsl.adjacency[u]
                   assert u_connected_in_parent == v_connected_in_parent, "Please contact pymtl3 developers."
 
-                  assert u_connected_in_whost != u_connected_in_parent, "Please contact pymtl3 developers."
+                  assert not (u_connected_in_whost and u_connected_in_parent), "Please contact pymtl3 developers."
 
-                  # We permit this loopback from parent level. Otherwise
-                  # we throw an error
+                  # We permit this loopback from parent level. Otherwise (it
+                  # is connected in the host itself or somewhere above the
+                  # parent) we throw an error
                   if not u_connected_in_parent:
                     raise InvalidConnectionError( \
 """InPort and OutPort loopback connection is only allowed at parent level:
@@ -592,11 +593,12 @@ class ComponentLevel3( ComponentLevel2 ):
 - Unless the connection is fulfilled in parent "{}",
   {} "{}" of {} (class {}) cannot be driven by {} "{}" of {} (class {}).
 
-  Note: Looks like the connection is fulfilled in "{}".""" \
+  Note: Looks like the connection is fulfilled in {}.""" \
           .format(  parent,
                     type(v).__name__, repr(v), repr(rhost), type(rhost).__name__,
                     type(u).__name__, repr(u), repr(whost), type(whost).__name__,
-                    repr(whost) ) )
+                    '"{}"'.format( repr(whost) ) if u_connected_in_whost else
+                    'a component above "{}"'.format( repr(parent) ) ) )
 
                 else:
                   raise SignalTypeError( \
